@@ -104,7 +104,7 @@ PROPS = {
     "C07": dict(
         module="OrbitModel.Properties.C07",
         theorems=["Orbit.C07.index_tracks_replay", "Orbit.C07.index_step", "Orbit.C07.pinned_tree_violates",
-                  "Orbit.C07.get_returns_exactly_matching", "Orbit.C07.documents_are_the_replay_of_the_listing", "Orbit.C07.trimmed_document_stayed_visible_before_the_fix"],
+                  "Orbit.C07.get_returns_exactly_matching", "Orbit.C07.documents_are_the_replay_of_the_listing", "Orbit.C07.trimmed_document_stayed_visible_before_the_fix", "Orbit.C07.reads_take_one_state_tied_to_go_text"],
         families=[("doc", 120, 4000, 14), ("reload", 40, 1000, 12), ("limit", 40, 1000, 12)],
         corr_fields={"values", "idx", "ack", "docget"},
         nontrivial=nt_doc,
@@ -353,7 +353,7 @@ MANIFEST_TEXT = {
         note="Trusted: Lean kernel + standard axioms; hand-written model of kvIndex.UpdateIndex and of the log, validated by correspondence (bounded by the generators); hypothesis KvOps (a key-value log carries only PUT/DEL) and the log universe assumptions.",
         technique="Lean 4 proof (handled-set scan = replay, invariant along histories) with differential correspondence against the real key-value store"),
     "C07": dict(
-        text="Kernel-checked theorems: the document index loop (after the fix: commit for PUTALL members) is equivalent to the replay of the listing at every step of every history, batch members included; Get returns exactly the matching index keys; the pinned loop is refuted by a decide-checked witness that was replayed on the real code before the fix. Correspondence and the L1 predicate index = docReplay(Values()) run on the implementation after every step; Get/Query results are compared with the matching documents of the index. After the fix: commit F45 the documents are the replay of what the log lists with no history hypothesis (proved; a trimming Load on a live store left the documents of the trimmed entries visible: decide-checked witness, replayed in the limit family).",
+        text="Kernel-checked theorems: the document index loop (after the fix: commit for PUTALL members) is equivalent to the replay of the listing at every step of every history, batch members included; Get returns exactly the matching index keys; the pinned loop is refuted by a decide-checked witness that was replayed on the real code before the fix. Correspondence and the L1 predicate index = docReplay(Values()) run on the implementation after every step; Get/Query results are compared with the matching documents of the index. After the fix: commit F45 the documents are the replay of what the log lists with no history hypothesis (proved; a trimming Load on a live store left the documents of the trimmed entries visible: decide-checked witness, replayed in the limit family). Get and Query answer from one state of the documents (finding F58, fix: commit - keys and values were read in separate lock sections: a Query overlapping a batch put returned one document of each generation; the doc family lets a batch put land while a Query reads, with the caller's filter as the meeting point; the one-state read is regenerated from the Go text).",
         note="Trusted: Lean kernel + standard axioms; hand-written model of documentIndex.UpdateIndex/Get validated by correspondence; DocWF (members of one PUTALL have distinct keys: built from a Go map); ASCII lower-casing in the model; search keys with spaces excluded by the property.",
         technique="Lean 4 proof (generic handled-set scan = replay theorem instantiated for PUT/DEL/PUTALL) with differential correspondence against the real document store"),
     "C08": dict(
